@@ -151,6 +151,16 @@ def make_backend(cfg, seed=0):
     fb = [[v.PolyphaseFilterbank(num_taps=M, num_branches=P, window_fn=cfg.get('window', 'hamming'))
            for _ in range(npol)] for _ in range(na)]
     rq = [[SpyComplex(**rkw) for _ in range(npol)] for _ in range(na)]
+    if cfg.get('template'):
+        # the documented common usage: ONE template object per stage, which the backend copies per antenna and
+        # polarisation (spy classes survive the deep copy; the per-stream objects are read back from the backend)
+        be = v.RawVoltageBackend(src, digitizer=SpyReal(**dkw),
+                                 filterbank=v.PolyphaseFilterbank(num_taps=M, num_branches=P, window_fn=cfg.get('window', 'hamming')),
+                                 requantizer=SpyComplex(**rkw),
+                                 start_chan=cfg['start_chan'], num_chans=cfg['num_chans'],
+                                 block_size=block_size_of(cfg), blocks_per_file=cfg['bpf'],
+                                 num_subblocks=cfg['num_subblocks'])
+        return be, src, be.digitizer, be.filterbank, be.requantizer
     be = v.RawVoltageBackend(src, digitizer=dig, filterbank=fb, requantizer=rq,
                              start_chan=cfg['start_chan'], num_chans=cfg['num_chans'],
                              block_size=block_size_of(cfg), blocks_per_file=cfg['bpf'],
